@@ -394,13 +394,21 @@ def tol_two_sided(m, run, funcs, rule='TOL1.two-sided-tolerance'):
             if isinstance(x, ast.Compare) and len(x.ops) == 1 and isinstance(x.ops[0], (ast.Lt, ast.LtE, ast.Gt, ast.GtE)):
                 l, r = x.left, x.comparators[0]
                 for a, b in ((l, r), (r, l)):
-                    if isinstance(b, ast.Name) and b.id in tolnames:
+                    small = isinstance(b, ast.Constant) and isinstance(b.value, float) and 0 < b.value < 1e-3
+                    if (isinstance(b, ast.Name) and b.id in tolnames) or small:
                         n += 1
                         is_abs = isinstance(a, ast.Call) and isinstance(a.func, ast.Name) and a.func.id == 'abs'
+                        if isinstance(a, ast.Name):
+                            # a local standing for a difference:  delta = stop - start
+                            ds = [y.value for y in walk_no_nested(fi.node) if isinstance(y, ast.Assign) and len(y.targets) == 1 and isinstance(y.targets[0], ast.Name)
+                                  and y.targets[0].id == a.id]
+                            if len(ds) == 1:
+                                a = ds[0]
+                                is_abs = isinstance(a, ast.Call) and isinstance(a.func, ast.Name) and a.func.id == 'abs'
                         diff = isinstance(a, ast.BinOp) and isinstance(a.op, ast.Sub)
                         ok = is_abs or not diff
                         run.ob(rule, '%s :: %s' % (fi.key, norm(x)), ok,
                                'absolute difference compared with the tolerance' if ok else
-                               'signed difference `%s` compared with tolerance `%s`: deviations in one direction are never detected' % (norm(a), b.id),
+                               'signed difference `%s` compared with tolerance `%s`: deviations in one direction are never detected' % (norm(a), norm(b)),
                                site(fi, x))
     return n
